@@ -65,7 +65,10 @@ def main(argv=None):
         cl = f["clause"]
         cov["clauses_failed"][cl] = cov["clauses_failed"].get(cl, 0) + 1
         case = by_id.get(f["case"])
-        if cl.startswith("L2."):
+        # X.exact (a recorded number is not representable in the specification's units) is a
+        # falsified clause only for C02 - exact contributions cannot produce such a value -;
+        # for every other property it is drift
+        if cl.startswith("L2.") or (cl.startswith("X.") and prop != "C02"):
             out["drift"].append(f)
         elif cl.startswith(prop + ".") or cl.startswith("X."):
             kf = classify(known, prop, cl, case, f)
